@@ -1056,11 +1056,40 @@ fn run(cfg: &Cfg) -> Report {
             stats.flush(rep);
         }
     });
+    if cfg.tier == Tier::Thorough {
+        let args: Vec<String> = vec!["c05".into(), "24".into(), cfg.seed.to_string()];
+        let outcome = crate::miri::run_logmon_under_miri(cfg, &args, None, 1500);
+        crate::miri::fold(&mut rep, "c05-histories", &args, outcome);
+    }
     rep.exhaustive_parts.push(format!(
         "all histories of length <= {depth} over an alphabet of {} operations (offsets 0..6, sizes 1,2,4; two write ids + top value, remove, merge_write_top, every mark_interval with start<=end, mark_all, shifts -1/1/3, values_mut+clear_top_values, merge, merge_with, clone) for both value domains",
         alpha.len()
     ));
     rep
+}
+
+/// `logmon c05 <histories> <seed>`: a few random histories of both value domains (small enough for Miri:
+/// exercises the `Arc::make_mut` paths of MemRegion under the undefined-behaviour interpreter).
+pub fn logmon_main(args: &[String]) -> i32 {
+    let histories: u64 = args.first().and_then(|s| s.parse().ok()).unwrap_or(20);
+    let seed: u64 = args.get(1).and_then(|s| s.parse().ok()).unwrap_or(1);
+    let mut rng = Rng::derive(seed, "logmon-c05", 0);
+    let mut rep = Report::new();
+    let mut stats = Stats::default();
+    let mut budget = 0u32;
+    for i in 0..histories {
+        if i % 2 == 0 {
+            random_history::<Tracer>(&mut rng, &mut rep, &mut stats, &mut budget, false);
+        } else {
+            random_history::<BitvectorDomain>(&mut rng, &mut rep, &mut stats, &mut budget, false);
+        }
+    }
+    stats.flush(&mut rep);
+    for (sig, v) in &rep.violations {
+        println!("VIOLATION property=C05 signature={sig} detail={}", v.detail.chars().take(600).collect::<String>());
+    }
+    println!("logmon c05: histories={histories} evaluations={} violations={}", rep.evaluations, rep.violations.len());
+    if rep.violations.is_empty() { 0 } else { 1 }
 }
 
 fn replay(_cfg: &Cfg, case: &Value) -> Report {
